@@ -3,6 +3,10 @@ package checks
 var Registry = map[string]func(*Ctx) int{
 	"C15": C15,
 	"C01": C01,
+	"C02": C02,
+	"C07": C07,
+	"C08": C08,
+	"C11": C11,
 	"C03": C03,
 	"C05": C05,
 	"C09": C09,
